@@ -63,6 +63,7 @@ class Ctx:
         self.distinct = set()
         self.outcomes = {}
         self._nreplay = 0
+        self.extra_distinct = 0      # distinct cases counted natively (e.g. executed schedules), too many to register one by one
 
     # ---- counters
     def add(self, key, n=1):
@@ -115,7 +116,7 @@ class Ctx:
     def write(self):
         cov = dict(self.cov)
         cov.setdefault("evaluations", 0)
-        cov["distinct_nontrivial"] = len(self.distinct)
+        cov["distinct_nontrivial"] = len(self.distinct) + self.extra_distinct
         cov.setdefault("rule", "")
         cov["samples"] = self.samples or ["(none)"]
         cov["exhaustive"] = bool(self.exhaustive)
